@@ -1,2 +1,28 @@
-(* C06 -- placeholder *)
-From NV Require Import Model.Nucleo.
+(* C06 -- A snapshot is an exact, ordered, duplicate-free answer.
+   Statements in Spec/NucleoStatements.v, proofs in Proofs/SnapshotFacts.v.  Quantification: every state
+   reachable by a well-formed history with truthful append flags (any interleaving of injector threads
+   between reservation and publication, pattern edits, ticks that time out / cancel / complete, restarts,
+   runs stopped at any stage, any scan result the parallel scan may have seen) - at EVERY moment, not only
+   after a tick.
+     C06_snapshot   the snapshot's matches are duplicate-free, each one is a real (never a placeholder)
+                    initialised item of the snapshot's stream whose stored score is the score of the
+                    snapshot's pattern on that item; there is a set of exactly item_count() processed
+                    items, all initialised, that contains every match and of which every item matched by
+                    the pattern is reported; and the matches are ordered by score descending, then total
+                    column length ascending, then index ascending (by index for the empty pattern).
+   The hypothesis within_capacity (no stream holds more than u32::MAX reservations) is what the item
+   vector's capacity check guarantees (boxcar.rs MAX_ENTRIES; C11); without it the statement is false for
+   the unbounded model (C06_unbounded_refuted). *)
+From Coq Require Import NArith List Bool.
+From NV Require Import Model.Nucleo Spec.NucleoStatements Proofs.SnapshotFacts.
+Import Nucleo.
+Import ListNotations.
+Local Open Scope N_scope.
+
+Theorem C06_snapshot : forall sc ln, C06_snapshot_weak_stmt sc ln.
+Proof. exact SnapshotFacts.C06_snapshot_weak. Qed.
+Theorem C06_unbounded_refuted : forall sc ln, ~ C06_snapshot_stmt sc ln.
+Proof. exact SnapshotFacts.C06_snapshot_false. Qed.
+
+Print Assumptions C06_snapshot.
+Print Assumptions C06_unbounded_refuted.
